@@ -5,7 +5,12 @@
    (model of property C06, Graph/Cycle.v::active_edges_single_cycle ... None true = CyclePrimCompose2.frame_cycle_prim;
    the native node means C06's gsem_c06).  Everything else is the body of CastleWall.solve_castle_wall_model with the
    definitions of CastleWall.v: is_inside is declared from the id the Solver has reached (next_id), which is now
-   frame_n + height * width instead of frame_n + 3 * height * width.  Same input domain and error behaviour.
+   frame_n + height * width instead of frame_n + 3 * height * width.  Same input domain.  Error behaviour: as on the
+   plain route, except for the boards (0, -k) and (-k, 0), k >= 0 (both dimensions strictly negative stay outside the
+   scope): on the plain route the rank array int_array(.., 0, -1) of the helper raises ValueError; on this route nothing
+   raises, Array2D takes the product of its (negative) dimensions as its size, so the frame has k variables (the
+   answer keys), `passed` is empty, is_inside has k + 1 variables, all loops are empty and the program consists of the
+   native node on the empty graph alone (cw_degenerate_prim k; the capture tie contains (0, 0), (-1, 0), (0, -3)).
 
    castle_wall_program_prim / castle_wall_exact_prim: the statements of CastleWallProofs.castle_wall_program /
    castle_wall_exact for this program (same hypothesis cw_wf, same answer keys - the frame), from
@@ -20,10 +25,17 @@ From Cspuz Require Import Lib.PyErr Core.Expr Core.Program Graph.GraphModel Grap
 Import ListNotations.
 Local Open Scope nat_scope.
 
+(* the program of the boards (0, -k) and (-k, 0) *)
+Definition cw_degenerate_prim (k : nat) : state :=
+  {| vars := repeat DBool (k + S k); keys := repeat true k ++ repeat false (S k);
+     cons := [BNode G_AVC [PyInt 0; PyInt 0]] |}.
+
 Definition solve_castle_wall_model_prim (pb : problem) : res state :=
   let h := dim pb 0 in let w := dim pb 1 in
   let kind := sec pb 1 in let num := sec pb 2 in let side := sec pb 3 in
-  if ((getz (sec pb 0) 0 <=? 0) || (getz (sec pb 0) 1 <=? 0))%Z then Err ValueError
+  if ((getz (sec pb 0) 0 =? 0) && (getz (sec pb 0) 1 <=? 0))%Z then Ok (cw_degenerate_prim (Z.to_nat (- getz (sec pb 0) 1)))
+  else if ((getz (sec pb 0) 1 =? 0) && (getz (sec pb 0) 0 <=? 0))%Z then Ok (cw_degenerate_prim (Z.to_nat (- getz (sec pb 0) 0)))
+  else if ((getz (sec pb 0) 0 <=? 0) || (getz (sec pb 0) 1 <=? 0))%Z then Err ValueError
   else
   match frame_cycle_prim (h - 1) (w - 1) with
   | Ok (st1, _) =>
@@ -86,6 +98,8 @@ Theorem castle_wall_program_prim fh fw kind num side st ans :
        single_loop_b (lattice (S fh) (S fw)) (fun k => isb (getz ans k)) && cw_local fh fw kind num side ans = true).
 Proof.
   cwp_open (S fh) (S fw) kind num side.
+  replace (Z.of_nat (S fh) =? 0)%Z with false by (symmetry; apply Z.eqb_neq; lia).
+  replace (Z.of_nat (S fw) =? 0)%Z with false by (symmetry; apply Z.eqb_neq; lia). cbn [andb].
   replace ((Z.of_nat (S fh) <=? 0) || (Z.of_nat (S fw) <=? 0))%Z with false
     by (symmetry; apply orb_false_iff; split; apply Z.leb_gt; lia).
   replace (S fh - 1) with fh by lia. replace (S fw - 1) with fw by lia.
@@ -126,13 +140,21 @@ Proof.
     + rewrite (cw_sides_core fh fw side en B Hins). exact Hl2.
 Qed.
 
-(* the model rejects boards without a row or a column *)
+(* the model rejects boards with exactly one of height, width equal to 0; the 0 x 0 board gives cw_degenerate_prim 0 *)
 Lemma castle_wall_model_prim_dims h w kind num side st :
-  solve_castle_wall_model_prim [[Z.of_nat h; Z.of_nat w]; kind; num; side] = Ok st -> 1 <= h /\ 1 <= w.
+  solve_castle_wall_model_prim [[Z.of_nat h; Z.of_nat w]; kind; num; side] = Ok st ->
+  (1 <= h /\ 1 <= w) \/ (h = 0 /\ w = 0 /\ st = cw_degenerate_prim 0).
 Proof.
   cwp_open h w kind num side.
-  destruct h as [|fh]; [intros H; discriminate H|].
-  destruct w as [|fw]; [rewrite orb_true_r; intros H; discriminate H|]. intros _. lia.
+  destruct h as [|fh]; destruct w as [|fw].
+  - intros H. inversion H. right. auto.
+  - replace (Z.of_nat (S fw) <=? 0)%Z with false by (symmetry; apply Z.leb_gt; lia).
+    replace (Z.of_nat (S fw) =? 0)%Z with false by (symmetry; apply Z.eqb_neq; lia).
+    intros H; discriminate H.
+  - replace (Z.of_nat (S fh) <=? 0)%Z with false by (symmetry; apply Z.leb_gt; lia).
+    replace (Z.of_nat (S fh) =? 0)%Z with false by (symmetry; apply Z.eqb_neq; lia).
+    intros H; discriminate H.
+  - intros _. left. lia.
 Qed.
 
 Theorem castle_wall_exact_prim h w kind num side st ans :
@@ -141,7 +163,12 @@ Theorem castle_wall_exact_prim h w kind num side st ans :
   ((exists en, model_of gsem_c06 en st /\ reads st en (seq 0 (h * (w - 1) + (h - 1) * w)) = ans)
    <-> rules_castle_wall [[Z.of_nat h; Z.of_nat w]; kind; num; side] ans = true).
 Proof.
-  intros Hwf Hst. destruct (castle_wall_model_prim_dims h w kind num side st Hst) as [Hh Hw].
+  intros Hwf Hst. destruct (castle_wall_model_prim_dims h w kind num side st Hst) as [[Hh Hw]|[-> [-> ->]]].
+  2:{ (* the 0 x 0 board: the only reading is the empty one, and it obeys the rules *)
+      split.
+      - intros [en [_ Hr]]. simpl in Hr. subst ans. reflexivity.
+      - intros Hr. destruct ans as [|a r]; [|discriminate Hr].
+        exists {| eb := fun _ => false; ei := fun _ => 0%Z |}. split; [split; reflexivity|reflexivity]. }
   destruct h as [|fh]; [lia|]. destruct w as [|fw]; [lia|].
   replace (S fh * (S fw - 1) + (S fh - 1) * S fw) with (frame_n fh fw)
     by (unfold frame_n; replace (S fw - 1) with fw by lia; replace (S fh - 1) with fh by lia; reflexivity).
@@ -156,6 +183,8 @@ Lemma castle_wall_model_prim_total h w kind num side :
   exists st, solve_castle_wall_model_prim [[Z.of_nat h; Z.of_nat w]; kind; num; side] = Ok st.
 Proof.
   intros Hh Hw Lk Ln Ls. cwp_open h w kind num side.
+  replace (Z.of_nat h =? 0)%Z with false by (symmetry; apply Z.eqb_neq; lia).
+  replace (Z.of_nat w =? 0)%Z with false by (symmetry; apply Z.eqb_neq; lia). cbn [andb].
   replace ((Z.of_nat h <=? 0) || (Z.of_nat w <=? 0))%Z with false
     by (symmetry; apply orb_false_iff; split; apply Z.leb_gt; lia).
   destruct (frame_cycle_prim_ok (h - 1) (w - 1)) as [st1 [res Hc]]. rewrite Hc.
